@@ -16,7 +16,7 @@ PLAN = {
     "C08": {"models": ["pipeline"], "drivers": ["small-anchors", "anchors", "fallbacks", "front:hist"]},
     "C09": {"drivers": ["class-sweep"], "models": ["class"]},
     "C10": {"drivers": ["orders", "front:hist", "big"], "models": ["builder-rust"]},
-    "C11": {"drivers": ["escape-words", "front:escsweep", "fallbacks", "front:hist"], "models": ["front-laws"]},
+    "C11": {"drivers": ["escape-words", "front:escsweep", "fallbacks", "front:hist"], "models": ["front-laws", "escape"]},
     "C12": {"drivers": ["front:cli"], "models": ["front-laws"]},
     "C13": {"drivers": ["thresholds", "front:hist"], "models": ["rep", "repconv"]},
     "C14": {"drivers": ["front:py"], "models": ["builder-py", "front-laws"]},
@@ -444,6 +444,30 @@ def model_segment(res, known, tier, seed):
                        "invariants": inv, "negative_control": "Rule=old (split on a backslash only in two-character clusters) refuted by TLC"})
 
 
+def model_escape(res, known, tier, seed):
+    """MC_Escape: escaping x surrogate pairs x repetitions x capturing groups on the Level-2 pipeline over an ASCII,
+    a BMP and an astral character; every behaviour replayed on the real library (string drift)."""
+    thorough = tier == "thorough"
+    consts = {"MaxLen": 3 if thorough else 2, "MaxSize": 2}
+    inv = ["PresentationOnly", "AsciiOnly", "NoClassOfEscapes", "Replay"]
+    m = vlib.run_model("Escape", constants=consts, invariants=inv, tag="escape", workers=8)
+    if m["violated"]:
+        raise ToolError("bounded model escape violates %s" % m["violated"])
+    beh = [o for o in m["objs"] if o.get("replay") == "escape"]
+    res.states += m["states"]
+    res.transitions += m["transitions"]
+    res.models.append({"model": "MC_Escape", "constants": consts, "states": m["states"], "transitions": m["transitions"],
+                       "behaviours": len(beh), "invariants": inv})
+    real = lambda x: x.replace("E", "\u00e9").replace("P", "\U0001F4A9")
+    plans = {}
+    for o in beh:
+        tcs = sorted(real(t) for t in o["tcs"].values())
+        p = plans.setdefault(json.dumps(tcs), {"tcs": tcs, "runs": [], "pred": []})
+        p["runs"].append({"cfg": {k: o[k] for k in ("escape", "surr", "rep", "capture")}})
+        p["pred"].append(real(o["out"]))
+    replay_with_drift(res, known, list(plans.values()), tier, seed, "escape")
+
+
 def model_print(res, known, tier, seed):
     """MC_Print: the complete printer (verbose layout, capturing groups, colour) on the Level-2 pipeline."""
     consts = {"MaxLen": 3, "MaxSize": 3 if tier == "thorough" else 2}
@@ -501,7 +525,7 @@ def model_tlaps_lang(res, known, tier, seed):
                        "theorems": ["UnitRight", "UnitLeft", "EqualImpliesEqualModEps", "ModEpsTransitive", "ModEpsPlusEpsIsEqual"]})
 
 
-MODELS = {"segment": model_segment, "tlaps-lang": model_tlaps_lang, "apalache-builder": model_apalache_builder, "print": model_print, "verbose": model_verbose, "repconv": model_repconv, "lang": model_lang, "fold": model_fold, "front-laws": model_front_laws, "class": model_class, "rep": model_rep, "pipeline": model_pipeline, "builder-rust": model_builder("rust"), "builder-py": model_builder("py"),
+MODELS = {"segment": model_segment, "escape": model_escape, "tlaps-lang": model_tlaps_lang, "apalache-builder": model_apalache_builder, "print": model_print, "verbose": model_verbose, "repconv": model_repconv, "lang": model_lang, "fold": model_fold, "front-laws": model_front_laws, "class": model_class, "rep": model_rep, "pipeline": model_pipeline, "builder-rust": model_builder("rust"), "builder-py": model_builder("py"),
           "builder-wasm": model_builder("wasm")}
 
 
